@@ -1,0 +1,9 @@
+//go:build !verif
+
+package gtree
+
+func verifStart(string) uint64 { return 0 }
+
+func verifPoint(string, uint64, string) {}
+
+func verifName(*Node) string { return "" }
